@@ -94,7 +94,8 @@ func (st *SymbolToken) Equal(o *SymbolToken) bool {
 // Parses text of the form '$n' for some integer n.
 func symbolIdentifier(symbolText string) (int64, bool) {
 	if len(symbolText) > 1 && symbolText[0] == '$' {
-		if sid, err := strconv.Atoi(symbolText[1:]); err == nil {
+		// Digits only: a sign ('$-5', '$+5') does not make a symbol identifier.
+		if sid, err := strconv.ParseUint(symbolText[1:], 10, 63); err == nil {
 			return int64(sid), true
 		}
 	}
